@@ -22,6 +22,8 @@ def run(tier):
             raise vlib.Broken("vacuous: only %d (record, level) pairs are in the <=2-visit regime AND have a repeated centre" % st["atmosttwice_and_repeats"])
     return snapcheck.run_snap_property(
         PROP, tier, "SnapTrace_C18.cfg", plans(tier),
+        steps_plans=[dict(gens="collapse,hole,star,rect,arbitrary", variants="base", n=1200 if tier == "quick" else 30000, W=6, nmax=12, bias=0.6, seed=vlib.seed() + 70)],
+        steps_cfg="SnapSteps_C18.cfg",
         rule="collapse-prone valid polygons (slivers, combs, pinched necks, thin frames with a hole, serpentines) at 1-3 levels; "
              "antecedent (no centre visited more than twice) evaluated by TLC on the boundary it routes itself; non-trivial = antecedent "
              "holds and some centre is visited twice (record_stats.atmosttwice_and_repeats)",
